@@ -154,8 +154,9 @@ FAM = {
     "mimep": dict(
         cls=MIMEAccept, small=True,
         ranges=["text/html", "text/html;level=1", 'text/html;level="1"', "text/html;charset=utf-8",
-                "text/html;level=1;charset=UTF-8", "text/*", "*/html", "*/*"],
-        offers=["text/html", "text/html;level=1", "text/html;charset=utf-8", "text/html;charset=UTF-8;level=1", "text/plain"],
+                "text/html;level=1;charset=UTF-8", 'text/html;title="a b"', "text/*", "*/html", "*/*"],
+        offers=["text/html", "text/html;level=1", "text/html;charset=utf-8", "text/html;charset=UTF-8;level=1",
+                'text/html;title="a b"', "text/plain"],
         match=match_mime, spec=spec_mime),
     # the media types behind accept_html / accept_xhtml / accept_json
     "mimes": dict(
@@ -543,13 +544,26 @@ def run_unit(unit, R, tier):
                 evaluate(R, fam, [(f["ranges"][3], "0.5"), (r, q)], offs)
                 evaluate(R, fam, [(r, q), (f["ranges"][3], "0.5")], offs)
             R.use("odd-q")
+        # q sent in the RFC 2231 extended form (q*=charset'lang'value): the decoded text is what counts
+        for qtext, wire in (("0.5", "UTF-8''0.5"), ("\u0660.\u0665", "UTF-8''%D9%A0.%D9%A5"), ("1.5", "''1.5"),
+                            ("0", "iso-8859-1'en'0"), ("x", "UTF-8''x")):
+            for r in f["ranges"][:2]:
+                evaluate(R, fam, [(r, qtext)], offs, header=f"{r};q*={wire}")
+                other = (f["ranges"][3], "0.5")
+                evaluate(R, fam, [other, (r, qtext)], offs, header=f"{render([other])}, {r};q*={wire}")
+            R.use("ext-q")
+        # a whole item sent as a quoted string
+        r0 = f["ranges"][0]
+        if ";" not in r0:
+            evaluate(R, fam, [(r0, None)], offs, header=f'"{r0}"')
+            evaluate(R, fam, [(r0, None), (f["ranges"][2], "0.5")], offs, header=f'"{r0}", {f["ranges"][2]};q=0.5')
         return
     raise core.Broken(f"unknown unit {unit!r}")
 
 
 def finalize(R, tier):
     need = {"family:" + f for f in FAM} | {"dropped-item", "all-items-valid", "order-group>1", "style", "odd-q",
-                                           "ambiguous-duplicate-ranges", "api"}
+                                           "ambiguous-duplicate-ranges", "api", "ext-q"}
     missing = need - R.used
     if missing:
         raise core.Broken(f"vacuity: never exercised {sorted(missing)}")
